@@ -234,7 +234,14 @@ class P:
                             for j in range(3000):
                                 proto, ip, dmsg, pub = new[j % len(new)]
                                 try:
-                                    self.send(ip, col.ports[proto], dmsg if j % 7 else os.urandom(60))
+                                    if j % 3 == 1:
+                                        # template ANNOUNCEMENTS keep arriving too (from further exporters): cache writers are then at work
+                                        # while the cache is being dumped
+                                        g_ = gens[proto]
+                                        t_, o_ = g_.rand_tpl(tid=2000 + j % 50, allow_var=False, opts=False, nfields=2)
+                                        self.send("127.0.%d.%d" % (3 + j % 5, 2 + j % 200), col.ports[proto], g_.enc_msg([g_.enc_set(g_.tpl_set_id(False), g_.enc_tpl(t_, False))]))
+                                    else:
+                                        self.send(ip, col.ports[proto], dmsg if j % 7 else os.urandom(60))
                                 except OSError:
                                     pass
                         stopper = threading.Thread(target=burst, daemon=True); stopper.start()
@@ -248,6 +255,10 @@ class P:
                                 proto, ip, dmsg, pub = new[j % len(new)]; j += 1
                                 try:
                                     self.send(ip, col.ports[proto], dmsg)
+                                    g_ = gens[proto]
+                                    t_, o_ = g_.rand_tpl(tid=2000 + j % 50, allow_var=False, opts=False, nfields=2)
+                                    for q_ in range(6):
+                                        self.send("127.0.%d.%d" % (3 + (j + q_) % 5, 2 + (7 * j + q_) % 200), col.ports[proto], g_.enc_msg([g_.enc_set(g_.tpl_set_id(False), g_.enc_tpl(t_, False))]))
                                     self.send("127.0.0.1", col.ports["nf5"], os.urandom(72))
                                     self.send("127.0.0.1", col.ports["sflow"], os.urandom(72))
                                     self.send("127.0.0.1", col.ports["nf9" if proto == "ipfix" else "ipfix"], os.urandom(40))
@@ -351,6 +362,20 @@ class P:
                 shutil.rmtree(d, ignore_errors=True)
             if viol:
                 break
+        if not viol and getattr(self, "broken", None):
+            # failing-input search: the dump under concurrent announcements, on the real caches (the stress harness of C10);
+            # a dump that never returns is a shutdown that never ends
+            rc, out = vf.sh(["go", "build"] + vf.harness_modfile() + ["-race", "-tags", "verif", "-o", "bin/race", "./cmd/race"], cwd=vf.HARNESS, env=vf.GOENV, timeout=900)
+            if rc == 0:
+                try:
+                    pr = subprocess.run([os.path.join(vf.HARNESS, "bin", "race"), "-d", "5s", "-w", "8"], env=dict(vf.GOENV, GORACE="halt_on_error=1 exitcode=66"),
+                                        stdout=subprocess.PIPE, stderr=subprocess.PIPE, text=True, timeout=60)
+                    if pr.returncode != 0:
+                        viol.append({"cases": [], "verdict": "the template cache is not sound while it is dumped under concurrent announcements (the dump shutdown() relies on): " + (pr.stdout[-200:] + pr.stderr[-400:]).strip()})
+                except subprocess.TimeoutExpired:
+                    viol.append({"cases": [], "verdict": "Dump of the template cache never returns while templates are being announced (5 s of concurrent decode / Dump, then 55 s of waiting): "
+                                 "shutdown() calls Dump after the grace sleep, so SIGTERM would not stop the collector and the cache file would not be written",
+                                 "replay_cmd": "cd harness && go build -race -tags verif -o bin/race ./cmd/race && timeout 60 ./bin/race -d 5s -w 8"})
         return {"violations": viol[:1], "coverage": {"cycles": log, "evaluations": max(1, n_cycles), "distinct_nontrivial": max(2, n_cycles),
                                                       "samples": log[:3] or ["no cycle completed"]}}
 
